@@ -216,6 +216,7 @@ def run_check(mod, tier, seed):
         "cvc5_cross_checked_queries": total.encoded.get("cvc5_cross_checked", 0),
         "functions_encoded": meta.get("encoded", []),
         "bounds": meta.get("bounds", ""),
+        "bounds_extensions": meta.get("also", ""),
         "outside_claim": meta.get("outside", ""),
         "engine": meta.get("engine", ""),
         "notes": total.notes[:20],
